@@ -53,7 +53,7 @@ func VerifC14Roster() {
 	vAssume(r0 >= 0 && r0 <= 255 && r1 >= 0 && r1 <= 255 && r2 >= 0 && r2 <= 255)
 
 	vAssert(!alphaC("addNextEpochNodes", cid14, 1, c), "C14/vector-1-refused-before-vector-0-exists")
-	// like every other harness (DESIGN.md 2.9): the first add and the first commit by the Alphabet are
+	// like the main operation of most other harnesses (DESIGN.md 2.9): the first add and the first commit by the Alphabet are
 	// required successes, not assumptions, so a tree on which the Alphabet cannot update the roster is
 	// reported instead of making everything below vacuous
 	added := alphaC("addNextEpochNodes", cid14, 0, a)
